@@ -267,6 +267,11 @@ func (channel *Channel) checkMethodAllowed(method amqp.Method) *amqp.Error {
 		if channel.conn.status != ConnOpenOK {
 			return amqp.NewConnectionError(amqp.ChannelError, "connection is not open", method.ClassIdentifier(), method.MethodIdentifier())
 		}
+		// a channel that was never opened, or was closed and not opened again, accepts channel.open only
+		isOpen := method.ClassIdentifier() == amqp.ClassChannel && method.MethodIdentifier() == amqp.MethodChannelOpen
+		if (channel.status == channelNew || channel.status == channelClosed) && !isOpen {
+			return amqp.NewConnectionError(amqp.ChannelError, "channel is not open", method.ClassIdentifier(), method.MethodIdentifier())
+		}
 		return nil
 	}
 
